@@ -144,6 +144,7 @@ def countStage : Val → List Val → R (List Val)
     if s = "" then .error .opFail
     else if startsWithDollar s then .error .opFail
     else if s.toList.contains '.' then .error .opFail
+    else if docs.isEmpty then .ok []              -- `if not in_collection: return []`
     else .ok [.doc [(s, .int docs.length)]]
   | _, _ => .error .opFail
 
